@@ -295,8 +295,14 @@ __CPROVER_ensures(g_pipe_send_calls == OLD(g_pipe_send_calls) && g_pipe_recv_cal
 /* C15 + stable state */ \
 __CPROVER_ensures(PX_POLL_INV(S) && PX_STABLE(S))
 
+/* constant case split on the number of waiting senders (one unit per case, -DPX_SB_WAITERS=k), else 0..PX_SB_MAXWAIT */
+#ifdef PX_SB_WAITERS
+#define PX_SB_WAITERS_OK (g_qb.n == PX_SB_WAITERS)
+#else
+#define PX_SB_WAITERS_OK (g_qb.n <= PX_SB_MAXWAIT)
+#endif
 #define PX_SET_SENDBUF_CONTRACT(S, PP, PX, MSGOK) \
-__CPROVER_requires(VP_AIOQS_PRE && g_qb.n <= PX_SB_MAXWAIT) \
+__CPROVER_requires(VP_AIOQS_PRE && PX_SB_WAITERS_OK) \
 __CPROVER_requires(PX_WAITER_PRE(MSGOK)) \
 PX_SETBUF_COMMON(S, PP, PX, WQ(S)) \
 __CPROVER_assigns(g_qb.n > 0: g_qb.head->a_msg) \
@@ -367,11 +373,17 @@ __CPROVER_ensures(g_j == OLD(g_msg_freed) ? g_msg_freed_at_j == (void *) m : g_m
 #define SC_NW (OLD(g_qa.n) + OLD(g_qb.n))
 #define SC_R0(S) OLD((S)->rmq.lmq_len)
 #define SC_W0(S) OLD((S)->wmq.lmq_len)
+/* constant case split on the numbers of waiting receivers / senders (-DPX_SC_NA=a -DPX_SC_NB=b), else 0..PX_MAXWAIT each */
+#ifdef PX_SC_NA
+#define PX_SC_WAITERS_OK (g_qa.n == PX_SC_NA && g_qb.n == PX_SC_NB)
+#else
+#define PX_SC_WAITERS_OK (g_qa.n <= PX_MAXWAIT && g_qb.n <= PX_MAXWAIT)
+#endif
 #define PX_SOCK_CLOSE_CONTRACT(S, PP, PX) \
 __CPROVER_requires(arg == (S) && PX_SKEL(S, PP, PX) && VP_NO_LOCK_HELD) \
-__CPROVER_requires(VP_AIOQS_PRE && g_qa.n <= PX_MAXWAIT && g_qb.n <= PX_MAXWAIT) \
+__CPROVER_requires(VP_AIOQS_PRE && PX_SC_WAITERS_OK) \
 __CPROVER_requires(g_qb.n == 0 || g_p2 == (void *) g_qb.head->a_msg) \
-__CPROVER_requires(PX_LMQ_PRE(WQ(S)) && PX_LMQ_PRE(RQ(S)) && (S)->rmq.lmq_len + (S)->wmq.lmq_len <= PX_MAXDRAIN) \
+__CPROVER_requires(PX_LMQ_PRE(WQ(S)) && PX_LMQ_PRE(RQ(S))) \
 __CPROVER_requires(g_k < (S)->rmq.lmq_len ==> g_p == (void *) LMQ_VIEW(RQ(S), g_k)) \
 __CPROVER_requires(g_hk < (S)->wmq.lmq_len ==> g_p3 == (void *) LMQ_VIEW(WQ(S), g_hk)) \
 __CPROVER_assigns(VP_PROTO_GHOST_LIST, VP_SYNC_GHOSTS, g_msg_freed, g_msg_freed_at_j) \
